@@ -166,6 +166,9 @@ def run(ctx):
     ctx.guard("decode32", "fe32::from_bytes", lambda: sc32.check_decode32(ctx, P2))
     ctx.guard("sc", "scalar32::reduce", lambda: sc32.check_scalar32(ctx, P2, "reduce"))
     ctx.guard("sc", "scalar32::muladd", lambda: sc32.check_scalar32(ctx, P2, "muladd"))
+    # signing multiplies the base point in the 32-bit backend too: its field operations carry lazily, so the group code
+    # must respect the operand contracts at every call site (fe-bounds + fe-use, shared with C15 / C17 / C20)
+    ctx.guard("fe-bounds", "fe32", lambda: febounds.check_fe32(ctx, P2, "K2"))
     ctx.guard("clamp", "ed25519/K2", lambda: check_clamp(ctx, P2))
     ctx.guard("sign", "signature/K2", lambda: check_signature(ctx, P2, "ed25519::signature", "extended_secret(keypair_private(arg2))", "keypair_public(arg2)"))
     ctx.guard("sign", "signature_extended/K2", lambda: check_signature(ctx, P2, "ed25519::signature_extended", "arg2", "extended_to_public(arg2)"))
